@@ -134,3 +134,8 @@ package stream
 //@   ensures#flag old(w.err) == nil ==> w.nonce[11] == 1 && ctr(w.nonce) == old(ctr(w.nonce)) + 1                     [C02 C05 C06]
 //@   ensures#errret (old(w.err) == nil && err != nil) ==> w.err == err                                                [C13]
 //@   modifies w.unwritten, w.buf, w.nonce, w.err, w.dst.$out
+
+// io.Copy and friends dispatch on optional interfaces (io.WriterTo,
+// io.ReaderFrom): the streams offer exactly the methods under contract.
+//@ methodset (*Reader) Read, readChunk                                                 [C01 C02 C05 C12 C13]
+//@ methodset (*Writer) Close, Write, flushChunk                                        [C01 C05 C06 C12 C13]
